@@ -8,6 +8,7 @@ import (
 	"os"
 	"os/exec"
 	"path/filepath"
+	"strings"
 
 	"verif/ev"
 	"verif/gen"
@@ -25,9 +26,11 @@ import (
 // away, damaged .gz files on disk, (thorough) strace ENOSPC/EIO injection.
 
 type c08Input struct {
-	data []byte
-	F    []byte // fault-free output
-	name string
+	data     []byte
+	F        []byte // fault-free output
+	name     string
+	overLong bool // holds a line beyond the reader's limit: the fault-free run may stop there with an error
+	refErr   bool // the fault-free run returned an error
 }
 
 func c08Inputs(g *gen.Gen, rng *rand.Rand, n int) []c08Input {
@@ -86,6 +89,22 @@ func C08() int {
 		}
 		ins = append(ins, c08Input{data: buf.Bytes(), name: fmt.Sprintf("big%d", k)})
 	}
+	// an over-long line (beyond the reader's limit) in the middle: the fault-free run itself must
+	// fail there (C07's explicit stop); faults that land inside the discarded remainder of that
+	// line must not turn the failure into a clean end of input
+	{
+		var buf bytes.Buffer
+		for j := 0; j < 3; j++ {
+			buf.Write(g.Case(gen.CaseOpts{}).Line.Bytes(jt.Plain))
+			buf.WriteByte('\n')
+		}
+		buf.WriteString(`{"c":"COMMAND","msg":"Slow query","attr":{"command":{"find":"c","filter":{"blob":"` + strings.Repeat("L", 200000) + `"}}}}` + "\n")
+		for j := 0; j < 3; j++ {
+			buf.Write(g.Case(gen.CaseOpts{}).Line.Bytes(jt.Plain))
+			buf.WriteByte('\n')
+		}
+		ins = append(ins, c08Input{data: buf.Bytes(), name: "over-long-line-in-the-middle", overLong: true})
+	}
 	// fault-free references
 	var ref []sut.AgentCmd
 	for _, in := range ins {
@@ -102,7 +121,10 @@ func C08() int {
 		w, _ := recs[i]["writes"].([]any)
 		nwrites[i] = len(w)
 		if recs[i]["err"] != nil {
-			c.Violation("fault-free-error", fmt.Sprintf("fault-free processing of %s returned an error: %v", ins[i].name, recs[i]["err"]), nil)
+			ins[i].refErr = true
+			if !ins[i].overLong {
+				c.Violation("fault-free-error", fmt.Sprintf("fault-free processing of %s returned an error: %v", ins[i].name, recs[i]["err"]), nil)
+			}
 		}
 		for wi, wv := range w {
 			if p := dec64(wv); !lineBoundary(p) {
@@ -141,7 +163,7 @@ func C08() int {
 	}
 	// ---- reader: k-th Read fails under chunkings; every byte offset on small inputs
 	for i, in := range ins {
-		if len(in.data) > 40000 {
+		if len(in.data) > 40000 && !in.overLong {
 			continue
 		}
 		for _, ch := range []int{4096, 37 + i, 1} {
@@ -165,8 +187,21 @@ func C08() int {
 	if thorough(c) {
 		masks = []byte{0xff, 0x01, 0x80}
 	}
-	for i := 0; i < ngz && i < len(ins); i++ {
-		in := ins[(i*2+1)%9]
+	olIdx := -1
+	for i := range ins {
+		if ins[i].overLong {
+			olIdx = i
+		}
+	}
+	for i := 0; i <= ngz && i < len(ins); i++ {
+		idx := (i*2 + 1) % 9
+		if i == ngz {
+			if olIdx < 0 {
+				break
+			}
+			idx = olIdx // the input with the over-long line, gzip-compressed
+		}
+		in := ins[idx]
 		var z []byte
 		bounds := map[int]bool{} // offsets at which a cut leaves a complete, shorter gzip stream
 		switch i % 3 {
@@ -188,7 +223,6 @@ func C08() int {
 			bounds[len(gz(in.data[:a]))] = true
 			bounds[len(gz(in.data[:a], in.data[a:b]))] = true
 		}
-		idx := (i*2 + 1) % 9
 		for off := 0; off < len(z); off++ {
 			kind := "gzcut"
 			if bounds[off] {
@@ -295,6 +329,14 @@ func c08JudgeLib(c *ev.Check, ins []c08Input, ii int, kind, what string, short, 
 	}
 	if !bytes.HasPrefix(F, acc) {
 		c.Violation("not-a-prefix|"+kind, fmt.Sprintf("%s on %s: the %d accepted bytes are not a prefix of the fault-free output", what, in.name, len(acc)), rp)
+		return
+	}
+	if in.refErr {
+		// the fault-free run already stops with an error (over-long line): with a fault on top it must
+		// still report failure, and what it accepted must still be a whole-line prefix
+		if !failed {
+			c.Violation("failure-turned-into-success|"+kind, fmt.Sprintf("%s on %s: the fault-free run fails (over-long line) but this run returned nil with %d of %d bytes", what, in.name, len(acc), len(F)), rp)
+		}
 		return
 	}
 	if nofault {
